@@ -448,14 +448,18 @@ theorem console_within_rounding (n : Nat) :
   split <;> omega
 
 /-- **reported_ge_extent_witness** (recompiled model; the open finding `...:other-options`).  A model that already carries an
-    `OfflineMemoryAllocation` entry keeps it (`publishedPlan`), the figure is the fresh allocation of this compilation: four CPU
-    operators on 1x16x2x3 int16, first LinearAlloc (plan extent 1344), then HillClimb (total 768): reported 768 < 1344. -/
+    `OfflineMemoryAllocation` entry keeps it (`publishedPlan`), the figure is the fresh allocation of this compilation.  Real
+    numbers of the kept reproducer `gen2:cpu/0/7` (CAST, QUANTIZE, CAST, QUANTIZE on 1x1x19x1 uint8; first ethos-u55-32
+    LinearAlloc with 32-byte alignment: plan `[0, 32, 128, 160, 256]`, extent 275; then ethos-u65-256 Greedy: total 160,
+    `dram_memory_used` = 0.15625 KiB): whatever plan the second compilation computed, the published one needs 275 > 160. -/
 theorem reported_ge_extent_witness :
-    let inputPlan : List (Int × Nat) := [(0, 192), (192, 384), (576, 384), (960, 192), (1152, 192)]
-    let fresh : List (Int × Nat) := [(0, 192), (192, 384), (0, 192), (192, 384), (576, 192)]
-    let calls : List AllocCall := [⟨.sram, [.scratch, .scratchFast], 768, true⟩]
-    ¬ (planExtent (publishedPlan (some inputPlan) fresh) ≤ lookup (books calls).used .sram) ∧
-    planExtent (publishedPlan none fresh) ≤ lookup (books calls).used .sram := by decide
+    let inputPlan : List (Int × Nat) := [(0, 19), (32, 76), (128, 19), (160, 76), (256, 19)]
+    let calls : List AllocCall := [⟨.dram, [.scratch, .scratchFast], 160, true⟩]
+    (∀ fresh, ¬ (planExtent (publishedPlan (some inputPlan) fresh) ≤ lookup (books calls).used .dram)) ∧
+    (∀ fresh, publishedPlan none fresh = fresh) := by
+  refine ⟨fun fresh => ?_, fun _ => rfl⟩
+  simp only [publishedPlan, Option.getD_some]
+  decide
 
 /-! ## the Spec checkers that judge the OUTPUT FILE (`Spec/Serialise.lean`) are sound; the Spec's byte encoding is the model's -/
 
